@@ -73,6 +73,10 @@ func (f *Mapcan) Call(s *slip.Scope, args slip.List, depth int) slip.Object {
 			ca[i-1] = l2[n]
 		}
 		r := caller.Call(s, ca, d2)
+		if _, exit := r.(slip.NonLocalExit); exit {
+			// return-from, return or go: control is leaving the function.
+			return r
+		}
 		switch tr := r.(type) {
 		case nil:
 			// ok but nothing to append
